@@ -126,7 +126,8 @@ PROOFS = [
     Proof('channel/notify_senders', 'chan.c', 'h_notify_senders', kind='L', min_obligations=4),
     Proof('mpmc/pop', 'ring.c', 'h_mpmc_pop', kind='L', min_obligations=4, backend='cadical'),
 ]
-NATIVES = []
+NATIVES = [Native('native', 'native.cpp', args_quick=[200000], args_thorough=[20000000], timeout=3000, link_photon=True)]
+REPLAY = 'native'
 AUX_VIOLATION = True    # no native oracle: a failing loop-rule obligation is reported (no-failing-input-found), see DESIGN §4
 TRUSTED = ['cbmc 6.11.0', 'lowering rules of specs/C07/spec.py']
 NOT_DECIDED = ['FIFO per producer across stalls; "nothing lost or duplicated" as a whole-history property (the per-call step contracts + the mark-protocol lemmas are what is proved)',
